@@ -20,6 +20,10 @@ EXTENDS AstTree, TLC, Json, SequencesExt
 Obs == ndJsonDeserialize("obs.ndjson")
 Sg(op, cause, kind, field) == [fam |-> "asttree", op |-> op, cause |-> cause, kind |-> kind, field |-> field]
 
+\* nodes of the copy that are nodes of the original; the edge <<parent index, field index>> into a node (<<0, 0>>: root)
+SharedIdx(r) == {i \in 1..Len(r.copy.pids) : r.copy.pids[i] \in ToSet(r.orig.pids)}
+EdgeInto(g, i) == LET E == {e \in (1..Len(g.nodes)) \X (1..8) : e[2] <= Len(g.nodes[e[1]].f) /\ i \in ToSet(g.nodes[e[1]].f[e[2]].c)} IN
+                  IF E = {} THEN <<0, 0>> ELSE CHOOSE e \in E : TRUE
 CopyCause(x) == CASE x = "kind" -> "copy-differs-kind" [] x = "scalar" -> "copy-differs-scalar"
                   [] x = "children" -> "copy-differs-children" [] OTHER -> "copy-differs-size"
 ChangedCause(x) == CASE x = "kind" -> "original-changed-kind" [] x = "scalar" -> "original-changed-scalar"
@@ -29,7 +33,10 @@ CloneSigs(r) ==
   ELSE (IF Iso(r.orig, r.copy) THEN {}
         ELSE LET d == DiffOf(r.orig.nodes, r.copy.nodes) IN {Sg(r.api, CopyCause(d[3]), d[1], d[2])})
        \cup (IF Disjoint(r.orig, r.copy) THEN {}
-             ELSE {Sg(r.api, "shared-node", r.orig.nodes[i].k, "-") : i \in {i \in 1..Len(r.orig.pids) : r.orig.pids[i] \in ToSet(r.copy.pids)}})
+             ELSE {LET e == EdgeInto(r.copy, i) IN
+                   Sg(r.api, "shared-node", IF e[1] = 0 THEN r.copy.nodes[i].k ELSE r.copy.nodes[e[1]].k,
+                                            IF e[1] = 0 THEN "-" ELSE r.copy.nodes[e[1]].f[e[2]].n) :
+                   i \in {i \in SharedIdx(r) : EdgeInto(r.copy, i)[1] \notin SharedIdx(r)}})
        \cup (IF r.mutate # "ok" \/ Unchanged(r.orig, r.after) THEN {}
              ELSE LET d == ChangeOf(r.orig, r.after) IN {Sg(r.api, ChangedCause(d[3]), d[1], d[2])})
 
